@@ -307,6 +307,25 @@ func (d *Decls) StructOf(name string, fields, fsorts []string, goT types.Type) s
 	return n
 }
 
+// useLemma adds a lemma of the library as an axiom for one list/trace sort.
+func (d *Decls) useLemma(kind, name, sort string) bool {
+	key := "lemma:" + kind + ":" + name
+	text, ok := d.specs.Templates[key]
+	if !ok {
+		return false
+	}
+	ph := "{L}"
+	if kind == "Trace" {
+		ph = "{T}"
+	}
+	text = strings.ReplaceAll(text, ph, sort)
+	if si := d.sorts[sort]; si != nil {
+		text = strings.ReplaceAll(text, "{E}", si.Elem)
+	}
+	d.decl("uselemma:"+key+":"+sort, "(assert "+text+") ; @derived")
+	return true
+}
+
 func (d *Decls) instantiate(tmpl string, sub map[string]string) {
 	text, ok := d.specs.Templates[tmpl]
 	if !ok {
@@ -359,7 +378,11 @@ func LoadSpecs(dir string) (*SpecLib, error) {
 				continue
 			}
 			if i := strings.Index(line, ";"); i >= 0 {
-				line = line[:i]
+				if strings.Contains(line[i:], "@derived") {
+					line = line[:i] + "; @derived"
+				} else {
+					line = line[:i]
+				}
 			}
 			if strings.TrimSpace(line) != "" {
 				buf = append(buf, line)
@@ -385,6 +408,7 @@ type Oblig struct {
 	Pos     string
 	Src     string // contract clause text or Go construct
 	Cover   bool   // cover query: must be satisfiable
+	Induct  bool   // lemma of the spec library: proved by structural induction
 	Prelude string
 
 	// result
@@ -412,7 +436,18 @@ var solvers = []SolverSpec{
 func (o *Oblig) smt(withModel bool) string {
 	var b strings.Builder
 	b.WriteString("(set-logic ALL)\n")
-	b.WriteString(o.Prelude)
+	if o.Cover {
+		// facts that follow from the recursive definitions (tagged @derived) do not change
+		// satisfiability but defeat model finding: leave them out of vacuity queries
+		for _, l := range strings.Split(o.Prelude, "\n") {
+			if !strings.Contains(l, "; @derived") {
+				b.WriteString(l)
+				b.WriteString("\n")
+			}
+		}
+	} else {
+		b.WriteString(o.Prelude)
+	}
 	for _, a := range o.Assume {
 		if a.S == "true" {
 			continue
@@ -481,9 +516,15 @@ func discharge(o *Oblig, dir string, idx int, ms int, all bool) {
 	if o.Cover {
 		want, bad = "sat", "unsat"
 	}
-	n := len(solvers)
+	use := solvers
+	if o.Induct {
+		use = []SolverSpec{{"cvc5-1.0.3 --quant-ind", func(f string, ms int) []string {
+			return []string{"cvc5", "--lang=smt2", "--quant-ind", fmt.Sprintf("--tlimit=%d", ms), f}
+		}}, solvers[0]}
+	}
+	n := len(use)
 	ch := make(chan solveResult, n)
-	for _, s := range solvers {
+	for _, s := range use {
 		go func(s SolverSpec) { ch <- runSolver(ctx, s, file, ms) }(s)
 	}
 	var notes []string
